@@ -3,7 +3,9 @@
 (* hardware rule installed for it through the platform controller, every change of the placeholder *)
 (* behind its defaults, every pulse of the other coil on its power supply and every passage of     *)
 (* time, with the commands that reached the platform (driver object and rule interface) and        *)
-(* whether the call raised, must equal the model.                                                  *)
+(* whether the call raised, must equal the model.  A light on the coil: every brightness step of   *)
+(* the light channel (op "light", at the time it happens: an "adv" that ends at such a step has    *)
+(* part = TRUE) is a LightStep; what the light device was asked (op "lightreq") changes nothing.   *)
 (* (2) device traces (kind "cmd"): commands and rules observed at the platform while other devices *)
 (* (ejectors, flippers, coil players, shows ...) actuate coils; only the envelope is judged.       *)
 EXTENDS Coil, TraceIO
@@ -14,6 +16,7 @@ TNONE == -1000
 TConfigs == {}
 TInit == /\ tid \in 1..Len(TraceLines) /\ l = 1 /\ cfg = TraceLines[tid].cfg /\ now = 1 /\ on = "off" /\ swOffAt = 0
          /\ holdOffAt = 0 /\ busy = 0 /\ pend = <<>> /\ out = <<>> /\ err = FALSE /\ nops = 0 /\ act = [op |-> "init"]
+         /\ fade = NoFade /\ lb = 0 /\ since = 0
 Obs(e) == out' = e.cmds /\ err' = e.err
 Step(e) ==
     \/ e.op = "pulse" /\ Pulse(e.ms, e.pp, e.mw) /\ Obs(e)
@@ -23,10 +26,12 @@ Step(e) ==
     \/ e.op = "rule" /\ Rule(e.ms, e.pp, e.hp, e.hold) /\ Obs(e)
     \/ e.op = "other" /\ OtherPulse(e.ms) /\ Obs(e)
     \/ e.op = "setdef" /\ SetDef(e.w, e.v) /\ Obs(e)
-    \/ e.op = "adv" /\ Adv(e.d) /\ Obs(e)
+    \/ e.op = "adv" /\ (IF e.part THEN AdvPart(e.d) ELSE Adv(e.d)) /\ Obs(e)
+    \/ e.op = "light" /\ LightStep(e.b, e.bf) /\ Obs(e)
+    \/ e.op = "lightreq" /\ LightReq /\ Obs(e)
     \* a command of some other device: only the envelope applies (on' is irrelevant here)
     \/ /\ e.op = "cmd" /\ out' = <<e.c>> /\ on' = IF e.c[1] = "disable" THEN "off" ELSE "hold"
-       /\ UNCHANGED <<cfg, now, swOffAt, holdOffAt, busy, pend, err, nops>> /\ act' = [op |-> "cmd"]
+       /\ UNCHANGED <<cfg, now, swOffAt, holdOffAt, busy, pend, err, nops, fade, lb, since>> /\ act' = [op |-> "cmd"]
        /\ (e.c[1] = "disable" \/ (/\ e.c[2] >= 0 /\ (cfg.maxPulseMs = 0 \/ e.c[2] <= cfg.maxPulseMs)
                                   /\ e.c[3] >= 0 /\ e.c[3] <= PPLimit
                                   /\ (e.c[1] = "rule" => e.c[4] >= 0 /\ e.c[4] <= HPLimit)
